@@ -117,10 +117,7 @@ func (d deepInstr) bindVal(v ssa.Value) ssa.Value {
 func (d deepInstr) atoms() []Atom {
 	var out []Atom
 	for _, g := range d.rawGuards() {
-		if inner := helperAtoms(g); len(inner) > 0 {
-			out = append(out, inner...)
-			continue
-		}
+		out = append(out, helperAtoms(g)...)
 		if at, ok := condAtom(g.Cond, g.Positive); ok {
 			out = append(out, at.canon())
 		}
